@@ -1135,7 +1135,90 @@ def check_persist_before_publish(u):
     return obligations, failures, samples
 
 
-CHECKS = {"persist_before_publish": check_persist_before_publish, "schema_reload": check_schema_reload, "cluster_id_fresh": check_cluster_id_fresh, "schema_ddl": check_schema_ddl, "schema_atomic": check_schema_atomic, "seq_range_guard": check_seq_range_guard, "exits_covered": check_exits_covered, "sub_lag_stops": check_sub_lag_stops, "single_snapshot": check_single_snapshot, "offer_loops": check_offer_loops, "speedy_prealloc": check_speedy_prealloc, "from_conn": check_from_conn, "sql_actor_scoping": check_sql_actor_scoping, "local_write_sequence": check_local_write_sequence, "insert_local_changes": check_insert_local_changes, "authz_layer": check_authz_layer, "readonly_guard": check_readonly_guard, "read_pool": check_read_pool}
+def check_chunker_ranges(u):
+    """C05/C03/C08: what a sync server SENDS for a range is framed by ChunkedChanges::new(rows, start, end, …): the chunker labels its chunks
+    with ranges tiling start..=end and its contract (proved in unit c08_chunker) assumes the rows lie inside start..=end.  So at every
+    construction site in handle_need the (start, end) handed to the chunker must be the very expressions the rows were selected with
+    (`seq BETWEEN :start AND :end`), or (seq 0, the version's last_seq) where all rows of the version are selected.  A wider label makes
+    the receiver record seqs it never received; a narrower one hides rows."""
+    file = u["file"]
+    src, msk, o, c = _fn_body(file, u["fn"])
+    body = msk[o:c]
+    sites = [o + m.end() - 1 for m in re.finditer(r"ChunkedChanges\s*::\s*new\s*\(", body)]
+    if len(sites) < 2:
+        raise LostAnchor("handle_need: ChunkedChanges::new call sites not found")
+    def norm(x):
+        return re.sub(r"[\s\*&]", "", x)
+    obligations, failures, samples = [], [], []
+    for k, ao in enumerate(sites):
+        ac = match_delim(msk, ao)
+        args, depth, st = [], 0, ao + 1
+        for i in range(ao + 1, ac):
+            ch = msk[i]
+            if ch in "([{":
+                depth += 1
+            elif ch in ")]}":
+                depth -= 1
+            elif ch == "," and depth == 0:
+                args.append(src[st:i])
+                st = i + 1
+        if src[st:ac].strip():
+            args.append(src[st:ac])
+        if len(args) < 3:
+            raise Unsupported("ChunkedChanges::new with %d arguments" % len(args))
+        name = "chunker-labels-exactly-the-selected-seq-range:site-%d" % (k + 1)
+        obligations.append(name)
+        # the query the rows come from: nearest preceding query_map( … ) before this site
+        qm = [m for m in re.finditer(r"\.\s*query_map\s*\(", msk[o:ao])]
+        if not qm:
+            raise LostAnchor("no query_map before ChunkedChanges::new site %d" % (k + 1))
+        qo = o + qm[-1].end() - 1
+        qc = match_delim(msk, qo)
+        qtext = src[qo:qc]
+        ps = dict((m.group(1), norm(m.group(2))) for m in re.finditer(r'":(\w+)"\s*:\s*([^,\n}]+)', qtext))
+        lo = ps.get("start_seq", ps.get("start"))
+        hi = ps.get("end_seq", ps.get("end"))
+        a, b = norm(args[1]), norm(args[2])
+        if lo is None and hi is None:
+            # every row of the version is selected: the label must be the whole version
+            if a != "CrsqlSeq(0)" or b != "last_seq":
+                failures.append((name, _line(src, ao), "all rows of the version are selected but the chunker is told `%s ..= %s` instead of `CrsqlSeq(0) ..= last_seq`" % (args[1].strip(), args[2].strip())))
+        else:
+            # local aliases: `let start_seq = range_needed.start();`
+            def resolve(x):
+                m2 = None
+                for m2 in re.finditer(r"\blet\s+%s\s*=\s*([^;]+);" % re.escape(x), msk[o:ao]):
+                    pass
+                return norm(src[o + m2.start(1):o + m2.end(1)]) if m2 and re.fullmatch(r"\w+", x) else x
+            if resolve(a) != resolve(lo) or resolve(b) != resolve(hi):
+                failures.append((name, _line(src, ao), "rows are selected with seq BETWEEN `%s` AND `%s` but the chunker is told `%s ..= %s`" % (lo, hi, args[1].strip(), args[2].strip())))
+        samples.append("%s:%d site %d: rows %s..%s, chunker %s..%s" % (file, _line(src, ao), k + 1, lo, hi, a, b))
+    return obligations, failures, samples
+
+
+def check_seqmerge_params(u):
+    """C02/C03: the DELETE … RETURNING of process_incomplete_version selects the stored seq rows that overlap or touch the incoming chunk.
+    Its WHERE clause is proved equivalent to overlap-or-adjacent over (:start, :end) in unit c03_seqmerge; this obligation ties those two
+    parameters to the incoming chunk's own bounds and the row filter to this actor and version."""
+    file = u["file"]
+    src, msk, o, c = _fn_body(file, u["fn"])
+    m = re.search(r"named_params!\s*\[", msk[o:c])
+    if not m:
+        raise LostAnchor("process_incomplete_version: named_params![…] of the DELETE … RETURNING not found")
+    ao = o + m.end() - 1
+    ac = match_delim(msk, ao)
+    text = src[ao:ac]
+    ps = dict((mm.group(1), re.sub(r"[\s\*&]", "", mm.group(2))) for mm in re.finditer(r'":(\w+)"\s*:\s*([^,\n\]]+)', text))
+    want = {"actor_id": "actor_id", "db_version": "version", "start": "seqs.start()", "end": "seqs.end()"}
+    obligations = ["merge-query-parameter-%s-is-%s" % (k, re.sub(r"[^A-Za-z0-9]+", "-", v).strip("-")) for k, v in want.items()]
+    failures = []
+    for (k, v), ob in zip(want.items(), obligations):
+        if ps.get(k) != v:
+            failures.append((ob, _line(src, ao), "`:%s` is bound to `%s`, not `%s`" % (k, ps.get(k), v)))
+    return obligations, failures, ["%s:%d %s" % (file, _line(src, ao), ps)]
+
+
+CHECKS = {"seqmerge_params": check_seqmerge_params, "chunker_ranges": check_chunker_ranges, "persist_before_publish": check_persist_before_publish, "schema_reload": check_schema_reload, "cluster_id_fresh": check_cluster_id_fresh, "schema_ddl": check_schema_ddl, "schema_atomic": check_schema_atomic, "seq_range_guard": check_seq_range_guard, "exits_covered": check_exits_covered, "sub_lag_stops": check_sub_lag_stops, "single_snapshot": check_single_snapshot, "offer_loops": check_offer_loops, "speedy_prealloc": check_speedy_prealloc, "from_conn": check_from_conn, "sql_actor_scoping": check_sql_actor_scoping, "local_write_sequence": check_local_write_sequence, "insert_local_changes": check_insert_local_changes, "authz_layer": check_authz_layer, "readonly_guard": check_readonly_guard, "read_pool": check_read_pool}
 
 
 def run_unit(prop, u, tier, ctx, here):
